@@ -415,8 +415,8 @@ func splitRegexString(txt string) (pat, flags string) {
 	for i := 0; i < len(txt); i++ {
 		switch txt[i] {
 		case '"':
-			q, err := strconv.QuotedPrefix(txt[i:])
-			if err != nil {
+			q, _, ok := pathQuotedPrefix(txt[i:])
+			if !ok {
 				return "?unquotable:" + txt, ""
 			}
 			i += len(q) - 1
@@ -427,19 +427,15 @@ func splitRegexString(txt string) (pat, flags string) {
 		case ' ':
 			if depth == 0 && strings.HasPrefix(txt[i:], " like_regex ") {
 				rest := txt[i+len(" like_regex "):]
-				q, err := strconv.QuotedPrefix(rest)
-				if err != nil {
+				q, val, ok := pathQuotedPrefix(rest)
+				if !ok {
 					return "?unquotable:" + txt, ""
 				}
-				pat, err = strconv.Unquote(q)
-				if err != nil {
-					return "?unquotable:" + txt, ""
-				}
+				pat = val
 				rest = rest[len(q):]
 				if strings.HasPrefix(rest, ` flag "`) {
-					fq, err := strconv.QuotedPrefix(rest[len(" flag "):])
-					if err == nil {
-						flags, _ = strconv.Unquote(fq)
+					if _, fv, ok := pathQuotedPrefix(rest[len(" flag "):]); ok {
+						flags = fv
 					}
 				}
 				return pat, flags
@@ -447,4 +443,76 @@ func splitRegexString(txt string) (pat, flags string) {
 		}
 	}
 	return "?no like_regex:" + txt, ""
+}
+
+// pathQuotedPrefix reads a double-quoted string at the start of s as the
+// printer writes it (strconv.Quote escapes plus \u{N...}) and returns the
+// quoted text and its value.
+func pathQuotedPrefix(s string) (quoted, val string, ok bool) {
+	if len(s) == 0 || s[0] != '"' {
+		return "", "", false
+	}
+	var sb strings.Builder
+	i := 1
+	for i < len(s) {
+		c := s[i]
+		switch {
+		case c == '"':
+			return s[:i+1], sb.String(), true
+		case c != '\\':
+			sb.WriteByte(c)
+			i++
+		default:
+			if i+1 >= len(s) {
+				return "", "", false
+			}
+			e := s[i+1]
+			i += 2
+			switch e {
+			case 'a':
+				sb.WriteByte(7)
+			case 'b':
+				sb.WriteByte('\b')
+			case 'f':
+				sb.WriteByte('\f')
+			case 'n':
+				sb.WriteByte('\n')
+			case 'r':
+				sb.WriteByte('\r')
+			case 't':
+				sb.WriteByte('\t')
+			case 'v':
+				sb.WriteByte('\v')
+			case 'x', 'u', 'U':
+				n := map[byte]int{'x': 2, 'u': 4, 'U': 8}[e]
+				var digits string
+				if e == 'u' && i < len(s) && s[i] == '{' {
+					j := strings.IndexByte(s[i:], '}')
+					if j < 0 {
+						return "", "", false
+					}
+					digits = s[i+1 : i+j]
+					i += j + 1
+				} else {
+					if i+n > len(s) {
+						return "", "", false
+					}
+					digits = s[i : i+n]
+					i += n
+				}
+				v, err := strconv.ParseUint(digits, 16, 32)
+				if err != nil {
+					return "", "", false
+				}
+				if e == 'x' {
+					sb.WriteByte(byte(v))
+				} else {
+					sb.WriteRune(rune(v))
+				}
+			default:
+				sb.WriteByte(e)
+			}
+		}
+	}
+	return "", "", false
 }
